@@ -62,3 +62,127 @@ package operated
 //@   assert [in-range] s1 == ext(h, val(fld(s1, 1)), val(fld(s1, 2)), vz, f + c1) && 0 <= val(fld(s1, 1)) && val(fld(s1, 1)) < pow2(h) && 0 <= val(fld(s1, 2)) && val(fld(s1, 2)) < pow2(h)
 //@   assert [invert] a2 == 0 - a1 && b2 == 0 - b1 && c2 == 0 - c1 ==> s2 == ext(h, x, y, vz, f)
 //@ end
+
+//@ define sh(s: str, dx, dy, dv) = ext(val(fld(s, 0)), fmod(val(fld(s, 1)) + dx, pow2(val(fld(s, 0)))), fmod(val(fld(s, 2)) + dy, pow2(val(fld(s, 0)))), val(fld(s, 3)), val(fld(s, 4)) + dv)
+
+//@ -- C08: stencils are exactly the shifts by the stencil offsets, in the documented order
+//@ func Get6spatialIdsAdjacentToFaces
+//@   props C08 C06 C15
+//@   nooverflow
+//@   loop 0 unroll 2
+//@   ensures len(r0) == 6
+//@ end
+//@ case Get6spatialIdsAdjacentToFaces canonical
+//@   shape spatialID ext gh gx gy gv gf
+//@   split gh 0..35
+//@   loop 0 unroll 2
+//@   requires 0 <= gx && gx < pow2(gh) && 0 <= gy && gy < pow2(gh) && in64(gf - 1) && in64(gf + 1)
+//@   ensures len(r0) == 6 && r0[0] == sh(spatialID, 0 - 1, 0, 0) && r0[1] == sh(spatialID, 0, 0 - 1, 0) && r0[2] == sh(spatialID, 0, 0, 0 - 1) && r0[3] == sh(spatialID, 1, 0, 0) && r0[4] == sh(spatialID, 0, 1, 0) && r0[5] == sh(spatialID, 0, 0, 1)
+//@ end
+
+//@ func Get8spatialIdsAroundHorizontal
+//@   props C08 C15
+//@   nooverflow
+//@   loop 0 unroll 2
+//@   ensures len(r0) == 8
+//@ end
+//@ case Get8spatialIdsAroundHorizontal canonical
+//@   shape spatialID ext gh gx gy gv gf
+//@   split gh 0..35
+//@   loop 0 unroll 2
+//@   requires 0 <= gx && gx < pow2(gh) && 0 <= gy && gy < pow2(gh) && in64(gf)
+//@   ensures len(r0) == 8 && r0[0] == sh(spatialID, 0 - 1, 0, 0) && r0[1] == sh(spatialID, 0, 0 - 1, 0) && r0[2] == sh(spatialID, 0 - 1, 0 - 1, 0) && r0[3] == sh(spatialID, 0 - 1, 1, 0) && r0[4] == sh(spatialID, 1, 0, 0) && r0[5] == sh(spatialID, 0, 1, 0) && r0[6] == sh(spatialID, 1, 1, 0) && r0[7] == sh(spatialID, 1, 0 - 1, 0)
+//@ end
+
+//@ func Get26spatialIdsAroundVoxel
+//@   props C08 C15
+//@   nooverflow
+//@   loop 0 unroll 3
+//@   ensures len(r0) == 26
+//@ end
+//@ case Get26spatialIdsAroundVoxel canonical
+//@   shape spatialID ext gh gx gy gv gf
+//@   split gh 0..35
+//@   loop 0 unroll 3
+//@   requires 0 <= gx && gx < pow2(gh) && 0 <= gy && gy < pow2(gh) && in64(gf - 1) && in64(gf + 1)
+//@   ensures [below] len(r0) == 26 && r0[0] == sh(spatialID, 0, 0, 0 - 1) && r0[1] == sh(spatialID, 0 - 1, 0, 0 - 1) && r0[2] == sh(spatialID, 0, 0 - 1, 0 - 1) && r0[3] == sh(spatialID, 0 - 1, 0 - 1, 0 - 1) && r0[4] == sh(spatialID, 0 - 1, 1, 0 - 1) && r0[5] == sh(spatialID, 1, 0, 0 - 1) && r0[6] == sh(spatialID, 0, 1, 0 - 1) && r0[7] == sh(spatialID, 1, 1, 0 - 1) && r0[8] == sh(spatialID, 1, 0 - 1, 0 - 1)
+//@   ensures [level] r0[9] == sh(spatialID, 0 - 1, 0, 0) && r0[10] == sh(spatialID, 0, 0 - 1, 0) && r0[11] == sh(spatialID, 0 - 1, 0 - 1, 0) && r0[12] == sh(spatialID, 0 - 1, 1, 0) && r0[13] == sh(spatialID, 1, 0, 0) && r0[14] == sh(spatialID, 0, 1, 0) && r0[15] == sh(spatialID, 1, 1, 0) && r0[16] == sh(spatialID, 1, 0 - 1, 0)
+//@   ensures [above] r0[17] == sh(spatialID, 0, 0, 1) && r0[18] == sh(spatialID, 0 - 1, 0, 1) && r0[19] == sh(spatialID, 0, 0 - 1, 1) && r0[20] == sh(spatialID, 0 - 1, 0 - 1, 1) && r0[21] == sh(spatialID, 0 - 1, 1, 1) && r0[22] == sh(spatialID, 1, 0, 1) && r0[23] == sh(spatialID, 0, 1, 1) && r0[24] == sh(spatialID, 1, 1, 1) && r0[25] == sh(spatialID, 1, 0 - 1, 1)
+//@ end
+
+//@ -- N-layer neighbourhood: error cases, no panic, de-duplicated result
+//@ func GetNspatialIdsAroundVoxcels
+//@   props C08 C14 C15 C16
+//@   nooverflow
+//@   requires hLayers <= 1024 && vLayers <= 1024
+//@   ensures [err-iff-negative] (hLayers < 0 || vLayers < 0) <==> r1 != nil
+//@   ensures [empty-on-error] r1 != nil ==> len(r0) == 0
+//@   ensures [nodup] r1 == nil ==> nodup(r0)
+//@ end
+//@ -- the layer counts the property quantifies over: the capacity computation does not overflow
+//@ case GetNspatialIdsAroundVoxcels small-layers
+//@   split hLayers 0..4
+//@   split vLayers 0..4
+//@   ensures r1 == nil && nodup(r0)
+//@ end
+
+//@ -- C08 consequences over the stencil contracts: where the stencil is narrower than the grid
+//@ -- (3 <= 2^h) the neighbours are pairwise distinct, never the voxel itself, and the relation is symmetric
+//@ lemma C08_six_neighbours_distinct_and_symmetric
+//@   props C08
+//@   var h int
+//@   var x int
+//@   var y int
+//@   var vz int
+//@   var f int
+//@   var x2 int
+//@   var y2 int
+//@   var f2 int
+//@   split h 2..35
+//@   assume 0 <= x && x < pow2(h) && 0 <= y && y < pow2(h) && in64(vz) && in64(f - 1) && in64(f + 1)
+//@   assume 0 <= x2 && x2 < pow2(h) && 0 <= y2 && y2 < pow2(h) && in64(f2 - 1) && in64(f2 + 1)
+//@   call n1 := Get6spatialIdsAdjacentToFaces(ext(h, x, y, vz, f))
+//@   call n2 := Get6spatialIdsAdjacentToFaces(ext(h, x2, y2, vz, f2))
+//@   assert [distinct] nodup(n1)
+//@   assert [irreflexive] !in(ext(h, x, y, vz, f), n1)
+//@   assert [symmetric] in(ext(h, x2, y2, vz, f2), n1) <==> in(ext(h, x, y, vz, f), n2)
+//@ end
+
+//@ lemma C08_eight_neighbours_distinct_and_symmetric
+//@   props C08
+//@   var h int
+//@   var x int
+//@   var y int
+//@   var vz int
+//@   var f int
+//@   var x2 int
+//@   var y2 int
+//@   split h 2..35
+//@   assume 0 <= x && x < pow2(h) && 0 <= y && y < pow2(h) && in64(vz) && in64(f)
+//@   assume 0 <= x2 && x2 < pow2(h) && 0 <= y2 && y2 < pow2(h)
+//@   call n1 := Get8spatialIdsAroundHorizontal(ext(h, x, y, vz, f))
+//@   call n2 := Get8spatialIdsAroundHorizontal(ext(h, x2, y2, vz, f))
+//@   assert [distinct] nodup(n1)
+//@   assert [irreflexive] !in(ext(h, x, y, vz, f), n1)
+//@   assert [symmetric] in(ext(h, x2, y2, vz, f), n1) <==> in(ext(h, x, y, vz, f), n2)
+//@ end
+
+//@ lemma C08_twentysix_neighbours_distinct_and_symmetric
+//@   props C08
+//@   var h int
+//@   var x int
+//@   var y int
+//@   var vz int
+//@   var f int
+//@   var x2 int
+//@   var y2 int
+//@   var f2 int
+//@   split h 2..35
+//@   assume 0 <= x && x < pow2(h) && 0 <= y && y < pow2(h) && in64(vz) && in64(f - 1) && in64(f + 1)
+//@   assume 0 <= x2 && x2 < pow2(h) && 0 <= y2 && y2 < pow2(h) && in64(f2 - 1) && in64(f2 + 1)
+//@   call n1 := Get26spatialIdsAroundVoxel(ext(h, x, y, vz, f))
+//@   call n2 := Get26spatialIdsAroundVoxel(ext(h, x2, y2, vz, f2))
+//@   assert [distinct] nodup(n1)
+//@   assert [irreflexive] !in(ext(h, x, y, vz, f), n1)
+//@   assert [symmetric] in(ext(h, x2, y2, vz, f2), n1) <==> in(ext(h, x, y, vz, f), n2)
+//@ end
